@@ -6,8 +6,7 @@
                                   bound of handle_tail_bound_lower_goal)
     expansions/gram_charlier.py, expansions/cornish_fisher.py
   and the *specification* for finitely supported laws (central moments, cumulants, tail
-  probabilities).  The model follows the code including its quirks (central moment of order 1,
-  Bell polynomial of order 0); the specification is the mathematical definition.  No Mathlib.
+  probabilities).  The model follows the code including its quirks (Bell polynomial of order 0); the specification is the mathematical definition.  No Mathlib.
 -/
 import Polar.Poly
 
@@ -39,9 +38,10 @@ def mAt (ms : List Rat) (j : Nat) : Rat := if j = 0 then 1 else ms.getD (j - 1) 
 def centralTerm (m : Nat → Rat) (i j : Nat) : Rat :=
   (comb i j : Rat) * (-1) ^ (i - j) * m j * (m 1) ^ (i - j)
 
-/-- `centrals[i]`: **`centrals[1] = moments[1]`** (as coded), the binomial sum for i ≥ 2 -/
+/-- `centrals[i]`: `centrals[1] = 0` (as coded since repo commit d65f6a5; before it was `moments[1]`,
+    finding F8), the binomial sum for i ≥ 2 -/
 def centralOf (m : Nat → Rat) (i : Nat) : Rat :=
-  if i = 1 then m 1 else sumTo (centralTerm m i) (i + 1)
+  if i = 1 then 0 else sumTo (centralTerm m i) (i + 1)
 
 /-- the returned dict `{1: c₁, …, N: c_N}` as a list -/
 def rawToCentral (ms : List Rat) : List Rat :=
